@@ -96,8 +96,8 @@ impl TopicSocket<Frame, SeliumError> {
     requires self is Reqrep,                                                                    // [C11.no_role_mismatch_panic]
     ensures self == TopicSocket::<T, E>::Reqrep(r),
 //@end
-//@fn server/src/topic/mod.rs :: Clone for Sender :: clone [props=C11 C17]
-    ensures r is Pubsub == self is Pubsub,
+//@fn server/src/topic/mod.rs :: Clone for Sender :: clone [props=C11 C17 C07]
+    ensures r is Pubsub == self is Pubsub, r.chan_id() == self.chan_id(),                       // [C07.a_clone_feeds_the_same_topic]
 //@end
 //@fn server/src/topic/mod.rs :: Sender :: accepts [props=C11]
     ensures r == ((self is Pubsub && wants_pubsub(*frame)) || (self is ReqRep && wants_reqrep(*frame))),     // [C11.role_checked_against_topic_kind]
@@ -109,6 +109,8 @@ impl TopicSocket<Frame, SeliumError> {
         *final(self) is Pubsub == *old(self) is Pubsub,
 //@end
 impl<T, E> TopicSender<T, E> {
+    // which topic's registration channel this sender feeds
+    pub open spec fn chan_id(&self) -> int { match self { TopicSender::Pubsub(s) => s.chan_id(), TopicSender::ReqRep(s) => s.chan_id() } }
     pub open spec fn chan_closed(&self) -> bool { match self { TopicSender::Pubsub(s) => s.chan_closed(), TopicSender::ReqRep(s) => s.chan_closed() } }
 }
 //@fn server/src/topic/mod.rs :: Sender :: close_channel [props=C16]
@@ -120,7 +122,12 @@ impl<T, E> TopicSender<T, E> {
 // ---- the shared topic map (Arc<Mutex<HashMap<TopicName, TopicChannel>>>) ----
 #[verifier::external_body] pub struct SharedTopics { _p: u8 }
 #[verifier::external_body] pub struct TopicsGuard { _p: u8 }
-impl SharedTopics { #[verifier::external_body] pub async fn lock(&self) -> (r: TopicsGuard) { unimplemented!() } }
+impl SharedTopics {
+    #[verifier::external_body] pub async fn lock(&self) -> (r: TopicsGuard) { unimplemented!() }
+    // the same map behind a reader-writer lock
+    #[verifier::external_body] pub async fn read(&self) -> (r: TopicsGuard) { unimplemented!() }
+    #[verifier::external_body] pub async fn write(&self) -> (r: TopicsGuard) { unimplemented!() }
+}
 impl TopicsGuard {
     pub uninterp spec fn view(&self) -> Map<TopicName, TopicChannel>;
     #[verifier::external_body] pub fn contains_key(&self, k: &TopicName) -> (r: bool) ensures r == self.view().dom().contains(*k) { unimplemented!() }
@@ -191,8 +198,14 @@ pub open spec fn all_topics_closed(m: Map<TopicName, TopicChannel>) -> bool { fo
 //@fn server/src/server.rs :: - :: handle_stream [props=C17 C07 C11] [guards=ts]
     requires
         stream.answer() is Nothing,
-//@hint before "let frame = result?;"
-        let ghost mut vx_handed: bool = false;
+//@hint before "^"
+    let ghost mut vx_looked_up: int = 0;
+    let ghost mut vx_did_look_up: bool = false;
+//@hint before "ts.get(topic).unwrap().clone()"
+            proof { vx_looked_up = ts.view()[*topic].chan_id(); vx_did_look_up = true; }
+//@hint before "tx.send("
+                // isolation: the socket goes to the channel stored in the shared map under the name that arrived on the wire
+                proof { assert(vx_did_look_up && tx.chan_id() == vx_looked_up); }                                   // [C07.stream_goes_to_the_channel_of_its_own_topic]
 //@hint before "return Ok(());"
                 proof { assert(stream.answer() is Refused); }                                    // [C11.refused_with_error_frame]
 //@hint before "let (_, read) = stream.split();"
